@@ -287,8 +287,10 @@ func sameOutcome(a, b ProcResult) (bool, string) {
 	if string(a.Stdout) != string(b.Stdout) {
 		return false, fmt.Sprintf("stdout %s vs %s", show(a.Stdout), show(b.Stdout))
 	}
-	if string(maskStamp(a.Stderr)) != string(maskStamp(b.Stderr)) {
-		return false, fmt.Sprintf("stderr %s vs %s", show(maskStamp(a.Stderr)), show(maskStamp(b.Stderr)))
+	// stderr wording is not part of the contract (a message may name the file,
+	// the binary, or stdin); only its presence with status 2 is
+	if (a.Code == 2) && (len(a.Stderr) == 0) != (len(b.Stderr) == 0) && len(a.Stdout) == 0 {
+		return false, fmt.Sprintf("one run explains its status 2 on stderr, the other is silent: %s vs %s", show(maskStamp(a.Stderr)), show(maskStamp(b.Stderr)))
 	}
 	return true, ""
 }
